@@ -80,16 +80,38 @@ static uint64_t g_classes = 0, g_generations = 0;
 static std::set< std::string > g_class_names;
 
 // ---------------------------------------------------------------------------
-enum Kind { VALUE, POINTER };
+enum Kind { VALUE, POINTER, MISSING };
 struct Field {
   const char *name;
   size_t offset, size;
   Kind kind;
 };
-#define FV(T, m)                                                                                   \
-  Field { #m, offsetof(T, m), sizeof(((T *)nullptr)->m), VALUE }
-#define FP(T, m)                                                                                   \
-  Field { #m, offsetof(T, m), sizeof(((T *)nullptr)->m), POINTER }
+// The member tables below name PRIVATE members. A member that does not exist (any more) in the class -
+// renamed or removed by a change of the code - must not break the build of the whole check: it becomes a
+// MISSING entry, which is skipped by the member-wise oracles and listed in the evidence
+// (white_box_members_missing); the byte-level oracles (re-dump, restored object behaves like the original)
+// do not depend on member names.
+static std::set< std::string > g_missing_members;
+template < class T, class F >
+auto field_or_missing(const char *cls, const char *name, Kind kind, F f, int) -> decltype(f((T *)nullptr), Field{}) {
+  (void)cls;
+  alignas(T) static char storage[sizeof(T)];
+  T *p = reinterpret_cast< T * >(storage);
+  const std::pair< const char *, size_t > a = f(p);
+  return Field{name, (size_t)(a.first - storage), a.second, kind};
+}
+template < class T, class F > Field field_or_missing(const char *cls, const char *name, Kind, F, long) {
+  g_missing_members.insert(std::string(cls) + "::" + name);
+  return Field{name, 0, 0, MISSING};
+}
+#define FIELD_OF(T, m, kind)                                                                        \
+  field_or_missing< T >(#T, #m, kind,                                                              \
+                        [](auto *p) -> decltype((void)p->m, std::pair< const char *, size_t >()) { \
+                          return {reinterpret_cast< const char * >(&p->m), sizeof(p->m)};          \
+                        },                                                                         \
+                        0)
+#define FV(T, m) FIELD_OF(T, m, VALUE)
+#define FP(T, m) FIELD_OF(T, m, POINTER)
 
 template < class T > std::string dump_of(const T &o, const std::string &file) {
   {
@@ -153,6 +175,8 @@ void check_object(const std::string &cls, const std::string &state, const T &ori
   // use of the restored object (re-dump, destructor) meaningless
   bool wild_pointer = false;
   for (auto &f : fields) {
+    if (f.kind == MISSING)
+      continue;
     ++g_R->evaluations;
     const char *p1 = (const char *)r1.obj + f.offset;
     const char *p2 = (const char *)r2.obj + f.offset;
@@ -1050,5 +1074,15 @@ int main(int argc, char **argv) {
   if (system(cmd.c_str())) {
   }
   verif::remove_fast_tmpdir(tmp);
+  {
+    std::string m;
+    for (auto &x : g_missing_members)
+      m += (m.empty() ? "" : ", ") + x;
+    R.set("white_box_members_missing", (double)g_missing_members.size());
+    if (!g_missing_members.empty()) {
+      R.cap("white-box member table out of date (members not found in the class, skipped by the member-wise oracles): " + m);
+      fprintf(stderr, "NOTE: white-box member table out of date: %s\n", m.c_str());
+    }
+  }
   return R.finish(A);
 }
